@@ -19,7 +19,8 @@ RULE = ("exhaustive strings over {a, b, blank} up to length 6 (quick) / 8 (thoro
         "{'', 'a', 'a ', ' ', 'ab'} x infixes {' ', ',', ', ', '', 'ab', default}; seeded random longer inputs "
         "over a wider alphabet; a scale layer (16 ... 70000 pieces / elements, subjects, separators and elements of "
         "15 ... 70000 bytes); a concurrent phase (lib/mtindep.py: 2-16 threads calling the four functions on "
-        "thread-private strings under ThreadSanitizer, results compared with the serial ones); distinct_nontrivial = distinct (function, arguments) tuples in which the "
+        "thread-private strings under ThreadSanitizer, results compared with the serial ones); joins of elements whose "
+        "inserter leaves std::hex on its stream or throws half-way, followed by ordinary joins; distinct_nontrivial = distinct (function, arguments) tuples in which the "
         "separator / pattern / prefix occurs in the subject at least once, or (join) the list has an empty or "
         "blank-terminated element")
 
@@ -93,9 +94,18 @@ def _random_jobs(rng, n):
             yield ("repl", s, p, r)
         elif k < 0.75:
             yield ("sw", s, s[:rng.randint(0, len(s))] if rng.random() < 0.6 else p)
-        else:
+        elif k < 0.97:
             lst = [b"".join(rng.choice(wide) for _ in range(rng.choice([0, 0, 1, 2, 5]))) for _ in range(rng.randint(0, 8))]
             yield ("join", rng.choice([b" ", b",", b"", b"--", None]), lst)
+        else:
+            # history: hostile element inserters, followed by ordinary joins in the same process
+            nums = [rng.choice([10, 255, 4096, 7, 0, 31]) for _ in range(rng.randint(1, 4))]
+            if rng.random() < 0.5:
+                yield ("joinh", b" ", nums)
+            else:
+                yield ("joint", b",", nums[:-1] + [rng.choice([-1, 5])])
+            yield ("joini", b" ", nums)
+            yield ("join", b", ", [b"Hello", b"", b"World ", b"x"])
 
 
 def _scale_jobs(rng):
@@ -141,6 +151,8 @@ def op_line(job):
         return "JOINI %s %s" % (hx(job[1]), " ".join(str(i) for i in job[2]))
     if k == "joins":
         return "JOINS %s %s" % (hx(job[1]), " ".join(hx(e) for e in job[2]))
+    if k in ("joinh", "joint"):
+        return "%s %s %s" % (k.upper(), hx(job[1]), " ".join(str(i) for i in job[2]))
     raise ValueError(job)
 
 
@@ -177,6 +189,10 @@ def hostile_class(job):
                                                   ("occurs-later" if job[2] in job[1] else "absent"))
     if k == "joins":
         return "single-pass-range"
+    if k == "joinh":
+        return "element-inserter-leaves-hex-on-its-stream"
+    if k == "joint":
+        return "element-inserter-throws-half-way" if any(i < 0 for i in job[2]) else "element-inserter-may-throw"
     if k == "join":
         lst = job[2]
         if any(e == b"" for e in lst):
@@ -236,9 +252,14 @@ def judge(job, res):
         if got != job[1].startswith(job[2]):
             return ("starts_with:not-the-prefix-relation:" + cls, "starts_with(%r, %r) = %s" % (job[1], job[2], got))
         return None
-    if k in ("join", "joini", "joins"):
+    if k == "joint" and any(i < 0 for i in job[2]):
+        if not line.startswith("J !std::runtime_error"):
+            return ("join:element-exception-did-not-propagate", line[:200])
+        return None
+    if k in ("join", "joini", "joins", "joinh", "joint"):
         infix = b" " if job[1] is None else job[1]
-        elems = job[2] if k != "joini" else [str(i).encode() for i in job[2]]
+        elems = job[2] if k not in ("joini", "joinh", "joint") else \
+            [(str(i) if k == "joini" else ("%x" % i if k == "joinh" else "part%d" % i)).encode() for i in job[2]]
         if not line.startswith("J ok "):
             return ("join:raised:" + cls, line[:200])
         f = line.split()
@@ -353,7 +374,9 @@ def run(tier, replay=None):
     if not replay:
         for need in ("class:repl:empty-pattern", "class:repl:pattern-in-replacement",
                      "class:split:self-overlapping-separator", "class:join:empty-element",
-                     "class:join:blank-terminated-element", "class:sw:empty-prefix", "class:split:empty-separator"):
+                     "class:join:blank-terminated-element", "class:sw:empty-prefix", "class:split:empty-separator",
+                     "class:joinh:element-inserter-leaves-hex-on-its-stream",
+                     "class:joint:element-inserter-throws-half-way"):
             if S.counters.get(need, 0) == 0:
                 run_.inconc("hostile class never exercised: " + need)
     build.prune()
